@@ -562,7 +562,13 @@ def main():
             cov["explanation"] = cfg.get("explanation", "")
         extra = getattr(gen, "coverage_extra", None)
         if extra:
-            cov.update(extra(cases, answers))
+            # a generator may take the driver's (model answer, verdict) pairs as a third argument
+            try:
+                import inspect
+                three = len(inspect.signature(extra).parameters) >= 3
+            except (TypeError, ValueError):
+                three = False
+            cov.update(extra(cases, answers, model) if three else extra(cases, answers))
         ev["coverage"] = cov
     except StopIteration:
         ev["coverage"] = {"obligations": 0, "discharged": 0, "checker_cmd": "n/a", "trusted_base": [], "explanation": "harness build failed",
